@@ -168,10 +168,17 @@ def tree_case(draw):
         if name in files or any(l[0] == name for l in links) or any(r.startswith(name + "/") for r in files):
             continue
         links.append([name, kind, draw(st.sampled_from(pys))])
-    mode = draw(st.sampled_from(["faf", "faf", "sast"]))
+    # faf: detector-less find-and-fix; sast: Sonar-driven; rule: semgrep-rule-detected find-and-fix (the detector sees
+    # the tree itself); dep: a find-and-fix codemod that also adds a requirement to the project's manifest
+    mode = draw(st.sampled_from(["faf", "faf", "sast", "rule", "dep"]))
     allrels = list(files) + [l[0] for l in links]
     inc, exc = draw(pattern_lists(allrels))
-    return {"level": "e2e", "files": files, "links": links, "mode": mode, "include": inc, "exclude": exc}
+    if mode in ("rule", "dep") and inc is not None:
+        # the site of these two-line triggers is the call on line 2 (the ':N' of an include pattern names the site's line)
+        inc = [p[:-2] + ":2" if p.endswith(":1") else p for p in inc]
+    # dep mode: requirements.txt is a regular file in the target, or a symlink to a file outside it
+    manifest = draw(st.sampled_from(["regular", "symlink-outside", "symlink-outside"])) if mode == "dep" else None
+    return {"level": "e2e", "files": files, "links": links, "mode": mode, "include": inc, "exclude": exc, "manifest": manifest}
 
 
 # ------------------------------------------------------------------ evaluation
@@ -213,12 +220,15 @@ def eval_direct(case, stats=None):
 
 TRIG_FAF = "x = set([1, 2])\n"
 TRIG_SAST = "assert (1,2,3)\n"
+TRIG_RULE = "import random\nx = random.random()\n"
+TRIG_DEP = "from xml.etree.ElementTree import parse\net = parse('some.xml')\n"
 PLAIN = "y = 1\n"
+MODE_CODEMOD = {"faf": "pixee:python/use-set-literal", "rule": "pixee:python/secure-random", "dep": "pixee:python/use-defusedxml"}
 
 
 def build_tree(case, sd, mode):
     proj, outside = sd / "proj", sd / "outside"
-    trig = TRIG_FAF if mode == "faf" else TRIG_SAST
+    trig = {"faf": TRIG_FAF, "sast": TRIG_SAST, "rule": TRIG_RULE, "dep": TRIG_DEP}[mode]
     files = {}
     for r, kind in case["files"].items():
         if r.endswith(".py"):
@@ -227,6 +237,11 @@ def build_tree(case, sd, mode):
             files[r] = "some text, not python: set([1, 2])\n" if kind == "trigger" else "plain\n"
     runner.write_tree(proj, files)
     runner.write_tree(outside, {"o.py": trig, "odir/p.py": trig})
+    if case.get("manifest") == "regular":
+        runner.write_tree(proj, {"requirements.txt": "requests==2.31.0\n"})
+    elif case.get("manifest") == "symlink-outside":
+        runner.write_tree(outside, {"shared-requirements.txt": "requests==2.31.0\n"})
+        os.symlink(str(outside / "shared-requirements.txt"), proj / "requirements.txt")
     for name, kind, target in case["links"]:
         p = proj / name
         p.parent.mkdir(parents=True, exist_ok=True)
@@ -256,8 +271,8 @@ def run_tree(case, sd, inc, exc, tag):
     root.mkdir()
     proj, outside = build_tree(case, root, mode)
     argv = [str(proj), "--output", str(root / "out.codetf")]
-    if mode == "faf":
-        argv += ["--codemod-include", "pixee:python/use-set-literal"]
+    if mode in MODE_CODEMOD:
+        argv += ["--codemod-include", MODE_CODEMOD[mode]]
     else:
         trig = [r for r, k in case["files"].items() if k == "trigger" and r.endswith(".py")]
         (root / "sonar.json").write_text(json.dumps(sonar_doc(trig)))
@@ -282,7 +297,7 @@ def eval_tree(case, stats=None):
         if cal.exit != 0:
             raise core.HarnessError(f"C05 calibration run failed exit={cal.exit}: {cal.stderr[-600:]}")
         _, _, cmod = runner.snap_diff(cb, ca)
-        cal_changed = sorted(m[len("proj/"):] for m in cmod if m.startswith("proj/"))
+        cal_changed = sorted(m[len("proj/"):] for m in cmod if m.startswith("proj/") and m != "proj/requirements.txt")
         if cal_changed != trig_rels:
             raise core.HarnessError(f"C05 calibration: trigger files {trig_rels} but select-everything run changed {cal_changed}")
         res, before, after, argv = run_tree(case, sd, inc, exc, "run")
@@ -290,12 +305,14 @@ def eval_tree(case, stats=None):
         vs.append(dict(component="cli:" + mode, kind="run-fails", features=[], case=case, detail=json.dumps({"argv": argv[1:], "exit": res.exit, "stderr": res.stderr[-800:]})))
     created, deleted, modified = runner.snap_diff(before, after)
     created = [c for c in created if c != "out.codetf"]
-    if mode == "faf":
+    if mode != "sast":
         expected = sorted(r for r in trig_rels if ref_selected(r, inc, exc, lambda r: r.endswith(".py"), FROZEN_DEFAULT_EXCLUDES))
     else:
         expected = sorted(r for r in trig_rels if ref_selected(r, inc, [] if exc is None else exc, lambda r: r.endswith(".py"), []))
-    got = sorted(m[len("proj/"):] for m in modified if m.startswith("proj/"))
+    got = sorted(m[len("proj/"):] for m in modified if m.startswith("proj/") and m != "proj/requirements.txt")
     other = [m for m in modified if not m.startswith("proj/")]
+    if case.get("manifest") == "regular" and expected and res.exit == 0 and "proj/requirements.txt" not in modified:
+        vs.append(dict(component="cli:" + mode, kind="requirement-not-added-to-manifest-in-target", features=[mode], case=case, detail=json.dumps({"changed": got})))
     det = {"argv": [a for a in argv[1:] if not a.startswith("/")], "include": inc, "exclude": exc, "mode": mode, "trigger_files": trig_rels, "links": case["links"], "expected_changed": expected, "changed": got}
     if res.exit == 0 and got != expected:
         feats = [mode]
@@ -316,6 +333,8 @@ def eval_tree(case, stats=None):
         labels = ["e2e", "e2e:" + mode, "e2e:inc=" + ("default" if inc is None else "user"), "e2e:exc=" + ("default" if exc is None else "user")]
         if case["links"]:
             labels.append("e2e:symlinks")
+        if case.get("manifest"):
+            labels.append("e2e:manifest=" + case["manifest"])
         if any(":" in p for p in (inc or []) + (exc or [])):
             labels.append("e2e:line-pattern")
         if inc is None and exc is None and any(not ref_selected(r, None, None, lambda r: True, FROZEN_DEFAULT_EXCLUDES) for r in trig_rels):
